@@ -53,7 +53,7 @@ CLAIMED = {
   "ref": "DESIGN.md 5-C06"},
  "C07": {
   "text": "Partial: contract on the real text of the agreement search and the two storage writes of LightClientProtocol::finalize_check_points (the block after the cleaning step, lifted mechanically) and on Peers::required_peers_count, Storage::update_check_points, Storage::update_max_check_point_index: check points are written only with the evidence that at least ceil(max_outbound_peers / 2) of the peers that entered the search report the same value for every position from the last final check point up to the written one (position by position, proved by a loop invariant over the real branch structure: count_max >= required, retain the agreeing peers, stop at the first position without a quorum); exactly those values are written, at consecutive indices starting right after the last final one, and the final index moves forward by the number of values written.",
-  "note": "The iterator pipelines over HashMap<PeerIndex, (u32, Vec<Byte32>)> (sizes, counting fold, max, find_map, retain, into_values) are replaced by helpers with assumed std semantics. The body of the cleaning loop is under contract too (a peer stays iff it reports the final value at the final index, and is then aligned to it; it is flagged for banning iff it contradicts the final value or starts after the final index); the per-peer selection closure of the proven peers is proved in unit peer_state. NOT decided: the glue between the lifted blocks (the search block's precondition is assumed at its call site), completeness ('fewer deviating peers cannot block agreement'), and that storage keys below the final index are never written by anything else.",
+  "note": "The iterator pipelines over HashMap<PeerIndex, (u32, Vec<Byte32>)> (sizes, counting fold, max, find_map, retain, into_values) are replaced by helpers with assumed std semantics. The bodies of the cleaning loop and of the loop applying its skip list are under contract too (a listed peer always leaves the search, a flagged one is banned; a peer stays iff it reports the final value at the final index, and is then aligned to it; it is flagged for banning iff it contradicts the final value or starts after the final index); the per-peer selection closure of the proven peers is proved in unit peer_state. NOT decided: the glue between the lifted blocks (the search block's precondition is assumed at its call site), completeness ('fewer deviating peers cannot block agreement'), and that storage keys below the final index are never written by anything else.",
   "ref": "DESIGN.md 5-C07"},
  "C09": {
   "text": "Contracts on the real text of Storage::update_filter_scripts: for every store content and argument the committed batch is exactly the documented command (all: every stored script entry deleted, every given script stored with its start number; partial: the given scripts stored; delete: the given scripts removed); the filter progress is only written to values at or below the start numbers of the scripts named; the pending matched blocks are discarded only with the evidence that the filter progress stands at or below the block number of every script that remains registered (this gate fails on the code before fix S10). Plus the gate on update_block_number in BlockFiltersProcess::execute (a script's recorded height is raised only when no matched block is waiting).",
@@ -67,7 +67,7 @@ CLAIMED = {
 
  "C16": {
   "text": "Partial: contracts on the real text of TransactionRpcImpl::{fetch_transaction, get_transaction} and ChainRpcImpl::fetch_header (service.rs): the reported status is exactly the function of (stored?, fetch-table entry) the property states (fetched / not_found+re-add / fetching{first_sent} / added{ts}), an existing added or in-flight entry is never reset by a call (gate on add_fetch_*), committed is reported iff the store has the transaction and then with the hash of the header the store returns for it; together with the fetch_gate gates (not_found only after a verified matching response).",
-  "note": "Peers' fetch-table maintenance on timeout/disconnect and the store writers behind get_transaction_with_header are not under contract.",
+  "note": "Also under contract: a timed-out peer is disconnected (refresh_all_peers) and a peer's entry is dropped (Peers::remove_peer) only after the fetch entries it serves were re-armed; Storage::get_transaction_with_header returns the stored transaction with the header stored for its own block number; the serving peer's pending request is dropped only with evidence that its entries were re-armed or answered (S12). Not under contract: the bodies of mark_fetching_*_timeout / get_*_to_fetch (which entries are re-armed / selected).",
   "ref": "DESIGN.md 5-C16"},
  "C17": {
   "text": "Partial (lock discipline only): gate-by-precondition over the real text of the four operations the property names - BlockFilterRpcImpl::set_scripts, BlockFiltersProcess::execute (with FilterProtocol::update_min_filtered_block_number), the SendBlock arm of SyncProtocol::received, and the fork rollback in LightClientProtocol::commit_prove_state: every mutation of the sync progress (update_filter_scripts, add_matched_blocks, remove_matched_blocks, update_block_number, update_min_filtered_block_number, filter_block, rollback_to_block) is reachable only after the handler has taken the write lock of Peers::matched_blocks (evidence produced by RwLock::write().expect()).",
